@@ -796,13 +796,18 @@ func (w *world) applyStep(e *event, s *Step) {
 		if s.N < 0 || s.N >= len(w.nodes) || !w.nodes[s.N].alive {
 			return
 		}
-		if s.G && e.i < 200 {
-			// proviso of C12: the accepting node has already learned of the earlier session
-			if prev := w.latestByClientID(s.S, s.C); prev != nil && prev.sid != "" {
+		if s.G {
+			// proviso of C12: the accepting node has already learned of the earlier session.
+			// Wait for gossip to bring it; after 3 s of that let anti-entropy (push-pull) do it.
+			if prev := w.latestByClientID(s.S, s.C); prev != nil && prev.sid != "" && w.nodes[prev.node].alive {
 				if _, err := w.nodes[s.N].dstate.SessionMetadatas().Get(prev.sid); err != nil {
-					e.deferred = true
-					w.push(&event{at: w.nowMs() + 50, kind: "step", step: e.step, i: e.i + 1})
-					return
+					if e.i < 60 {
+						e.deferred = true
+						w.push(&event{at: w.nowMs() + 50, kind: "step", step: e.step, i: e.i + 1})
+						return
+					}
+					w.pushPull(prev.node, s.N)
+					w.statAdd("takeover_proviso_by_pushpull", 1)
 				}
 			}
 		}
@@ -1114,6 +1119,11 @@ func (w *world) react(cl *simClient, p *mpkt, at int64) {
 				taken := map[string]bool{}
 				for _, o := range w.past {
 					taken[o.sid] = true
+				}
+				for _, o := range w.clients {
+					if o != cl {
+						taken[o.sid] = true
+					}
 				}
 				for _, id := range w.sessionsOfClient(w.nodes[cl.node], cl.opts.ClientID) {
 					if !taken[id] {
